@@ -28,5 +28,9 @@ func main() {
 		fmt.Printf("hash %x %v supply %s sum %s\n", h[:8], time.Since(t0), w.Supply(), w.SumBalances())
 		return
 	}
+	if len(os.Args) > 1 && os.Args[1] == "skeleton" {
+		mc.ShowSkeletons(os.Args[2:])
+		return
+	}
 	os.Exit(mc.Main(os.Args[1:]))
 }
